@@ -128,6 +128,30 @@ def main(argv):
                 caught = json.load(open(rp)).get('caught_by') if os.path.exists(rp) else '?'
                 print('%-10s %s caught_by=%s  %s' % (sid, meta['property'], caught, meta.get('what', '')[:100]))
         return 0
+    if args[0] == 'table':
+        rows = ['| id | property | what the change is / what it needs to manifest | caught by (quick tier) |', '|---|---|---|---|']
+        for sid in sorted(os.listdir(SEEDED)):
+            mp = os.path.join(SEEDED, sid, 'meta.json')
+            if not os.path.exists(mp):
+                continue
+            meta = json.load(open(mp))
+            rp = os.path.join(SEEDED, sid, 'result.json')
+            if os.path.exists(rp):
+                r = json.load(open(rp))
+                caught = ', '.join('%s (%d violations)' % (x['check'], x['violations'])
+                                   for x in r['results'] if x['exit'] == 1 and x['violations'])
+                missed = ', '.join(x['check'] for x in r['results'] if not (x['exit'] == 1 and x['violations']))
+                cell = caught or ''
+                if missed:
+                    cell += (' ' if cell else '') + 'MISSED by ' + missed
+                if meta.get('strengthened'):
+                    cell += ' — ' + meta['strengthened']
+            else:
+                cell = 'not run yet'
+            what = (meta.get('summary') or meta.get('what') or '').replace('|', '/').replace('\n', ' ')[:260]
+            rows.append('| %s | %s | %s | %s |' % (sid, meta['property'], what, cell))
+        print('\n'.join(rows))
+        return 0
     if args[0] == 'run':
         ids = args[1:]
         if ids == ['all']:
